@@ -261,7 +261,7 @@ Lemma env_sound_file f cc pc tokens i fl :
   exists tok q sz t,
     nth_error tokens i = Some tok /\ realpath f (pjoin (cwd_of cc pc) tok) = Some q /\ link_free f q /\ all_good q /\
     lstat f q = Some (NFile sz (Some t)) /\ suffix_ok (last q []) = true /\ (sz <= 100000)%N /\ visit true false t = [] /\
-    py_syspath0 f (cwd_of cc pc) tokens = SP_dir (removelast q) /\
+    py_syspath0 f (cwd_of cc pc) tokens = (if safe_path tokens i then SP_none else SP_dir (removelast q)) /\
     forall r, In r (roots t) -> shadowed f (removelast q) r = false.
 Proof.
   intros HA HC. unfold classify_fs in HA. apply args_sound in HA. rewrite HC in HA. cbn [sound] in HA.
@@ -272,7 +272,7 @@ Proof.
   pose proof (realpath_link_free _ _ _ HQ) as LF.
   exists tok, q, sz, t. repeat split; try assumption.
   - apply stat_resolved; [exact LF|eapply realpath_plain; exact HQ|exact S].
-  - unfold py_syspath0. rewrite HC, HN, HQ. unfold p_is_dir. rewrite S. reflexivity.
+  - unfold py_syspath0. rewrite HC, HN, HQ. unfold p_is_dir. rewrite S. destruct (safe_path tokens i); reflexivity.
 Qed.
 
 Lemma env_sound_module f cc pc tokens i m fl :
